@@ -937,10 +937,13 @@ class NetConnections:
         with open_text(file) as f:
             f.readline()  # skip the first line
             for line in f:
-                # the path is the last field and may contain spaces
-                tokens = line.split(None, 7)
+                # the path is the last field and may contain spaces,
+                # also in front: exactly one blank separates it from
+                # the inode
+                tokens = line.split(None, 6)
                 try:
-                    _, _, _, _, type_, _, inode = tokens[0:7]
+                    _, _, _, _, type_, _, rest = tokens
+                    inode, _, path = rest.rstrip('\n').partition(' ')
                 except ValueError:
                     if ' ' not in line:
                         # see: https://github.com/giampaolo/psutil/issues/766
@@ -959,10 +962,6 @@ class NetConnections:
                     if filter_pid is not None and filter_pid != pid:
                         continue
                     else:
-                        if len(tokens) == 8:
-                            path = tokens[7].rstrip('\n')
-                        else:
-                            path = ''
                         type_ = _common.socktype_to_enum(int(type_))
                         # XXX: determining the remote endpoint of a
                         # UNIX socket on Linux is not possible, see:
